@@ -16,7 +16,7 @@ func hasStringTyped(m *Model) bool {
 		return false
 	}
 	for _, p := range m.Plugins.Chain {
-		if p.Typ == "string" {
+		if p.Typ == "string" && p.Bare == "" {
 			return true
 		}
 	}
@@ -27,9 +27,11 @@ func hasStringTyped(m *Model) bool {
 // documented forms — numbers as YAML writes them — must be accepted by the plugin factories.
 func TestC18Build(t *testing.T) {
 	sub := lab.Sub("accepted-builds", "rapid: configurations in which every documented constraint holds (same generator as load-vs-reference, no faults) with an enabled plugin chain of the documented plugins "+
-		"{logging, size_limit, gzip, headers, request-id} whose numeric options are typed as YAML int (`5`), float (`5.0`) or — invalid — quoted string (`\"5\"`); LoadConfig, then loadbalancer.NewLoadBalancer (always stopped) and "+
-		"plugins.BuildChain as cmd/helios does; oracle: load succeeds; no panic; with int/float typing only, the build succeeds (documented forms are accepted); with a string-typed number either a build error or success is allowed; "+
-		"non-trivial = a YAML-typed plugin option is present")
+		"{logging, size_limit, gzip, headers, request-id} (30%: any built-in incl. custom-auth) whose numeric options are typed as YAML int (`5`), float (`5.0`) or — invalid — quoted string (`\"5\"`), "+
+		"20% of the entries without a usable config (`config` absent, `config:` null, `config: null`, `config: ~`, `config: {}`); LoadConfig, then loadbalancer.NewLoadBalancer (always stopped) and "+
+		"plugins.BuildChain as cmd/helios does; oracle: load succeeds; no panic; with int/float typing only, the build succeeds (documented forms are accepted); with a string-typed number, or a gzip / custom-auth / headers entry without config, either a build error or success is allowed — never a panic; "+
+		"non-trivial = a YAML-typed plugin option or an entry without usable config is present")
+	sub.Floor("bare-config", 0.15)
 	sub.NontrivialFloor(0.50)
 	sub.Floor("typ=int", 0.08)
 	sub.Floor("typ=float", 0.15)
@@ -46,7 +48,9 @@ func TestC18Build(t *testing.T) {
 		text := m.YAML()
 		labels := []string{fmt.Sprintf("chain-len=%d", len(m.Plugins.Chain))}
 		for _, p := range m.Plugins.Chain {
-			if p.Typ != "" {
+			if p.Bare != "" {
+				labels = append(labels, "bare-config", "bare="+p.Bare, p.Name+"/bare")
+			} else if p.Typ != "" {
 				labels = append(labels, "typ="+p.Typ, p.Name+"/"+p.Typ)
 			}
 		}
@@ -59,13 +63,13 @@ func TestC18Build(t *testing.T) {
 		if berr != nil {
 			labels = append(labels, "build-error")
 		}
-		sub.Case(m, TypedPluginOption(m), dedup(labels)...)
+		sub.Case(m, TypedPluginOption(m) || HasBare(m), dedup(labels)...)
 		switch {
 		case err != nil:
 			rt.Fatalf("LoadConfig rejected a configuration in which every documented constraint holds: %v\n%s", err, text)
 		case panicked != "":
 			rt.Fatalf("building an accepted configuration PANICKED: %s\n%s", panicked, text)
-		case berr != nil && !hasStringTyped(m):
+		case berr != nil && !hasStringTyped(m) && !BareNeedsConfig(m):
 			rt.Fatalf("an accepted configuration that uses only documented forms (plugin numbers as YAML int/float) does not start: %s: %v\n%s", stage, berr, text)
 		}
 	})
